@@ -986,9 +986,14 @@ theorem untilPost_sim (t : TCfg) {a b : R} (h : Sim a b) :
   | none => exact ⟨rfl, ⟨rfl, hu⟩⟩
   | some i =>
     simp only
-    cases bppFromUsize (bytesPerPixel i.color i.depth) with
-    | none => exact ⟨rfl, ⟨rfl, hu⟩⟩
-    | some bpp => exact ⟨rfl, Sim.refl _⟩
+    unfold reserveBytes
+    by_cases hlim : a.dec.limit ≥ outLineSize t i a.flags (Sub.new i).width
+    · simp only [hlim, if_true]
+      cases bppFromUsize (bytesPerPixel i.color i.depth) with
+      | none => exact ⟨by first | trivial | rfl, ⟨rfl, hu⟩⟩
+      | some bpp => exact ⟨by first | trivial | rfl, Sim.refl _⟩
+    · simp only [hlim, if_false]
+      exact ⟨by first | trivial | rfl, ⟨rfl, fun hc => by cases hc⟩⟩
 
 theorem untilPost_grow (t : TCfg) (a : R) (L : Nat) :
     untilPost t (growTo a L, .ok ()) = (growTo (untilPost t (a, .ok ())).1 L, (untilPost t (a, .ok ())).2) := by
@@ -1000,15 +1005,12 @@ theorem untilPost_grow (t : TCfg) (a : R) (L : Nat) :
   | none => rfl
   | some i =>
     simp only
-    cases bppFromUsize (bytesPerPixel i.color i.depth) with
-    | none => rfl
-    | some bpp =>
-      simp only
-      unfold reserveBytes
-      simp only [growTo]
-      by_cases hlim : a.dec.limit ≥ outLineSize t i a.flags (Sub.new i).width
-      · simp only [hlim, if_true]
-      · simp only [hlim, if_false]
+    unfold reserveBytes
+    simp only [growTo]
+    by_cases hlim : a.dec.limit ≥ outLineSize t i a.flags (Sub.new i).width
+    · simp only [hlim, if_true]
+      cases bppFromUsize (bytesPerPixel i.color i.depth) <;> rfl
+    · simp only [hlim, if_false]
 
 /-- **`Reader::read_until_image_data`** (between frames) from lagging readers: they end `Sim`-related -/
 theorem readUntilImageData_lag (cfg : Cfg) (hI : cfg.InflateOk) (t : TCfg) {v L m : Nat} {A B : R}
